@@ -1,6 +1,7 @@
 use crate::report::{Ctx, Level, Partial, Tier};
 use serde_json::Value;
 
+pub mod c01;
 pub mod c02;
 pub mod c03;
 pub mod c04;
@@ -13,8 +14,11 @@ pub mod c10;
 pub mod c11;
 pub mod c12;
 pub mod c13;
+pub mod c14;
+pub mod c15;
 pub mod c16;
 pub mod c17;
+pub mod c18;
 pub mod c19;
 pub mod rowmodel;
 
@@ -45,7 +49,7 @@ pub fn need(p: &Partial, counter: &str, min: u64) -> Result<(), String> {
     if n < min { Err(format!("oracle branch '{counter}' taken {n} times (< {min})")) } else { Ok(()) }
 }
 
-pub static ALL: &[&Prop] = &[&c02::PROP, &c03::PROP, &c04::PROP, &c05::PROP, &c06::PROP, &c07::PROP, &c08::PROP, &c09::PROP, &c10::PROP, &c11::PROP, &c12::PROP, &c13::PROP, &c16::PROP, &c17::PROP, &c19::PROP];
+pub static ALL: &[&Prop] = &[&c01::PROP, &c02::PROP, &c03::PROP, &c04::PROP, &c05::PROP, &c06::PROP, &c07::PROP, &c08::PROP, &c09::PROP, &c10::PROP, &c11::PROP, &c12::PROP, &c13::PROP, &c14::PROP, &c15::PROP, &c16::PROP, &c17::PROP, &c18::PROP, &c19::PROP];
 
 pub fn lookup(id: &str) -> Option<&'static Prop> {
     ALL.iter().copied().find(|p| p.id == id)
